@@ -9,5 +9,5 @@ CONSTANTS
   StreamNames <- StreamsOne
   PlainNames <- PlainAll
   WholeOnly = FALSE
-INVARIANTS GeneratorValid GoFsRefines GoFsReadRefines GoManRefines PyRefines PyReadRefines UnescapersAgree EscapersRoundTrip GoFsEscapeClean OldSearchWasWrong OldEscapeWasWrong OldLoaderWasWrong DoubleBackslashReadings RangeChecksExact OldRangeChecksWrong
+INVARIANTS GeneratorValid GoFsRefines GoFsReadRefines GoManRefines PyRefines PyReadRefines UnescapersAgree EscapersRoundTrip GoFsEscapeClean OldSearchWasWrong OldEscapeWasWrong OldLoaderWasWrong DoubleBackslashReadings StreamNameChecks RangeChecksExact OldRangeChecksWrong
 CHECK_DEADLOCK FALSE
